@@ -234,10 +234,16 @@ def harness_run_parallel(h, stream, ops, workers=12):
     return res
 
 
-def harness_run(h, stream, ops, timeout=3600, extra=()):
+LAST_STDERR = {}
+
+
+def harness_run(h, stream, ops, timeout=3600, extra=(), env_extra=None):
     inp = ("\n".join(ops) + "\n").encode()
     env = dict(GOENV, GOMEMLIMIT="6GiB")
+    if env_extra:
+        env.update(env_extra)
     rc, so, se = run([h, stream, "run"] + list(extra), inp=inp, env=env, timeout=timeout)
+    LAST_STDERR[stream] = se.decode(errors="replace")
     lines = so.decode(errors="replace").split("\n")
     if lines and lines[-1] == "":
         lines.pop()
@@ -374,7 +380,7 @@ def main(argv):
     trusted = list(props.TRUSTED_COMMON) + list(spec.get("trusted", []))
 
     # 1. harness from the working tree
-    race = bool(spec.get("race")) and a.tier == "thorough"
+    race = bool(spec.get("race"))
     h, err = build_harness()
     if h is None:
         res.violation("harness-build", "the verification harness no longer builds against the working tree "
